@@ -197,14 +197,21 @@ def sym(E, p, kf):
         ok = got["k"] == "array" and got["shape"] == [1]
         return dict(goal=specs.eqv(got["flat"][0], common.cells(exp1)[0]) if ok else False, got=got, case=case)
     exp = z3_fold(p["op"], lens, data, dt)
+    if dt.startswith("float"):
+        if got.get("dtype") not in (dt, None) or p["op"] not in ("max", "min"):
+            return dict(goal=False, got=got, case=case)          # the extremum of float cells is one of them: same float type
+        fp = lambda x: np._to_fp(x if z3.is_expr(x) else z3.BitVecVal(int(x), np.dtype(dt).itemsize * 8), np.dtype(dt))
+        GE, LE, EQ = (lambda a, b: z3.fpGEQ(fp(a), fp(b))), (lambda a, b: z3.fpLEQ(fp(a), fp(b))), (lambda a, b: z3.fpEQ(fp(a), fp(b)))
+    else:
+        GE, LE, EQ = (lambda a, b: a >= b), (lambda a, b: a <= b), specs.eqv
     if via in ("none", "npnone"):
         if got["k"] != "scalar":
             return dict(goal=False, got=got, case=case)
         whole = z3_fold(p["op"], [z3.IntVal(S)], data, dt)[0]
         if p["op"] in ("max", "min"):
             g = got["val"]
-            conds.append(z3.And(*[(g >= d if p["op"] == "max" else g <= d) for d in data]))
-            conds.append(z3.Or(*[specs.eqv(g, d) for d in data]))
+            conds.append(z3.And(*[(GE(g, d) if p["op"] == "max" else LE(g, d)) for d in data]))
+            conds.append(z3.Or(*[EQ(g, d) for d in data]))
         else:
             conds.append(specs.eqv(got["val"], whole))
     else:
@@ -214,8 +221,8 @@ def sym(E, p, kf):
             g = got["flat"][r]
             if p["op"] in ("max", "min"):
                 inrow = exp[r][1]
-                conds.append(z3.And(*[z3.Implies(c, (g >= d if p["op"] == "max" else g <= d)) for c, d in zip(inrow, data)]))
-                conds.append(z3.Or(lens[r] == 0, *[z3.And(c, specs.eqv(g, d)) for c, d in zip(inrow, data)]))      # nothing is claimed for an empty row
+                conds.append(z3.And(*[z3.Implies(c, (GE(g, d) if p["op"] == "max" else LE(g, d))) for c, d in zip(inrow, data)]))
+                conds.append(z3.Or(lens[r] == 0, *[z3.And(c, EQ(g, d)) for c, d in zip(inrow, data)]))      # nothing is claimed for an empty row
             else:
                 conds.append(specs.eqv(g, exp[r]))
     # operand unchanged
@@ -259,6 +266,8 @@ def _res_dtype(op, dt):
         return "int64"
     if op == "mean":
         return "float64"
+    if op in ("argmax", "argmin"):
+        return "*"
     return dt
 
 
@@ -289,10 +298,12 @@ def conc(case):
         vals = [(_pyfold(case["op"], r, dt) if (r or case["op"] not in ("max", "min", "argmax", "argmin")) else "?") for r in rows]
         if case["op"] in ("argmax", "argmin") and "?" in vals and not (got["k"] == "array" and got["shape"][0] == len(rows)):
             vals = [v for v in vals if v != "?"]      # one entry per non-empty row, in row order
+        if dt.startswith("float") and case["op"] in ("max", "min"):
+            vals = [v if v == "?" else common.cells(np.array([v], dtype=dt))[0] for v in vals]
         exp = common.ref_array(vals, [len(vals), 1] if case["keepdims"] else [len(vals)], rd)
     # C05 claims the numbers; the element type of the result is C04's subject and not compared here
-    if case["op"] == "mean":
-        return got, exp, {"float_eq": True}
+    if case["op"] == "mean" or dt.startswith("float"):
+        return got, exp, {"float_eq": True, "dtype_matters": case["op"] != "mean" and not case["op"].startswith("arg")}
     return got, exp, {"dtype_matters": False}
 
 
@@ -343,6 +354,8 @@ def jobs(tier, seed):
             out.append(dict(base, op=op, via="method", Rmin=1, R=2 if q else 3, L=2, pre=pre, dtype="float16"))
             out.append(dict(base, op=op, via="np", Rmin=1, R=3, L=2, pre=pre))
     for op in ("max", "min"):
+        out.append(dict(base, op=op, via="method", Rmin=1, empties=True, dtype="float16", R=3, L=2))      # float cells, empty rows anywhere
+        out.append(dict(base, op=op, via="reduce", Rmin=1, dtype="float16", R=2, L=2))
         out.append(dict(base, op=op, via="method", Rmin=1, empties=True))
         out.append(dict(base, op=op, via="reduce", Rmin=1, empties=True, R=3))
         for via in ("method", "reduce", "np"):
